@@ -88,12 +88,42 @@ def encode(x, np):
             data = [int(y) for y in x.ravel().tolist()]
         return {'k': 'array', 'dtype': str(x.dtype), 'shape': list(x.shape), 'data': data}
     try:
+        from spatialpandas.geometry.baselist import GeometryListArray
+        if isinstance(x, GeometryListArray):
+            return encode_list_array(x, np)
+    except Exception:
+        pass
+    try:
         import numba.typed
         if isinstance(x, numba.typed.List):
             return {'k': 'list', 'items': [encode(y, np) for y in x]}
     except Exception:
         pass
-    return {'k': 'other', 'repr': repr(x)[:200]}
+    return {'k': 'other', 'repr': '<' + type(x).__name__ + '>'}
+
+
+def encode_list_array(x, np):
+    """a real geometry list array as the record of the representation model (offset, length, bufs)"""
+    la = x.data
+    bufs = la.buffers()
+    items = []
+    nb = len(bufs)
+    for k, b in enumerate(bufs):
+        if b is None:
+            items.append({'k': 'none'})
+        elif k == nb - 1:
+            a = np.frombuffer(b, dtype=x.numpy_dtype)
+            items.append({'k': 'array', 'dtype': 'float64', 'shape': [len(a)], 'data': [enc_float(v) for v in a.astype('float64').tolist()]})
+        elif k % 2 == 1:
+            a = np.frombuffer(b, dtype='uint32')
+            items.append({'k': 'array', 'dtype': 'uint32', 'shape': [len(a)], 'data': [int(v) for v in a.tolist()]})
+        else:
+            a = np.frombuffer(b, dtype='uint8')
+            items.append({'k': 'array', 'dtype': 'uint8', 'shape': [len(a)], 'data': [int(v) for v in a.tolist()]})
+    rep = {'k': 'record', 'cls': 'ListArray', 'fields': {'offset': {'k': 'int', 'v': int(la.offset)},
+                                                        'length': {'k': 'int', 'v': len(la)},
+                                                        'bufs': {'k': 'tuple', 'items': items}}}
+    return {'k': 'record', 'cls': type(x).__name__, 'fields': {'listarray': rep, 'data': rep}}
 
 
 def resolve(target):
